@@ -66,7 +66,7 @@ def deciding_switch(b, bi, local, hops=10):
     return None
 
 
-def refusals(facts, T, bodies):
+def refusals(facts, T, bodies, unknown):
     """[(body, block, loc, a, rel, b)]: `a rel b` (rel in Gt / Ge) is refused - the edge taken under it reaches error exits only"""
     out = []
     for b in bodies:
@@ -97,6 +97,80 @@ def refusals(facts, T, bodies):
                 if rel in ('Lt', 'Le'):
                     a, c, rel = c, a, SWAP[rel]
                 out.append((b, bi, st['loc'], a, rel, c))
+        # the same relation spelled `a.cmp(&b)` and dispatched on the Ordering, or as a range test `(lo..=hi).contains(&x)`
+        for bi, t in b.calls():
+            if 'q' not in t['callee'] or len(t['args']) != 2 or t['dest']['p']:
+                continue
+            q = callee_q(t)
+            ta = simplify(T.resolve_env(simplify(T.of_operand(b, t['args'][0]))))
+            tb = simplify(T.resolve_env(simplify(T.of_operand(b, t['args'][1]))))
+            if t['callee']['q'] in ('core::cmp::Ord::cmp', 'core::cmp::PartialOrd::partial_cmp'):
+                na, nb = names_of(ta), names_of(tb)
+                if len(na) != 1 or len(nb) != 1 or na == nb:
+                    continue
+                a, c = next(iter(na)), next(iter(nb))
+                got = False
+                d = t['dest']['l']
+                holders = {d}
+                for bj in b.live:
+                    for st in b.blocks[bj]['stmts']:
+                        if st['k'] == 'assign' and not st['pl']['p'] and st['rv']['k'] in ('discr', 'use', 'cast'):
+                            src = st['rv'].get('pl') or st['rv'].get('op', {}).get('pl')
+                            if src and not src['p'] and src['l'] in holders:
+                                holders.add(st['pl']['l'])
+                for bj in b.live:
+                    sw = b.blocks[bj]['term']
+                    if sw['k'] == 'switch' and sw['op']['k'] in ('copy', 'move') and not sw['op']['pl']['p'] and sw['op']['pl']['l'] in holders and sw['op']['pl']['l'] != d:
+                        edges = {}
+                        for v, tgt in zip(sw['vals'], sw['targets']):
+                            name = {0: 'Equal', 1: 'Greater'}.get(v, 'Less' if v not in (0, 1) else None)
+                            edges[name] = tgt
+                        for name in ('Less', 'Equal', 'Greater'):
+                            edges.setdefault(name, sw['otherwise'])
+                        bad = {n for n, tgt in edges.items() if exit_outcomes_from(b, tgt) <= {'Err'}}
+                        if bad == {'Greater'}:
+                            out.append((b, bj, t['loc'], a, 'Gt', c)); got = True
+                        elif bad == {'Greater', 'Equal'}:
+                            out.append((b, bj, t['loc'], a, 'Ge', c)); got = True
+                        elif bad == {'Less'}:
+                            out.append((b, bj, t['loc'], c, 'Gt', a)); got = True
+                        elif bad == {'Less', 'Equal'}:
+                            out.append((b, bj, t['loc'], c, 'Ge', a)); got = True
+                if not got:
+                    unknown.add(frozenset((a, c)))
+            elif q.split('::')[-1] == 'contains' and 'ops::range::Range' in q:
+                nx = names_of(tb)
+                ends = {}
+                for n_ in walk(ta):
+                    if n_[0] == 'agg' and 'Range' in str(n_[1]):
+                        for fld, val in n_[3].items():
+                            nm = names_of(val)
+                            if len(nm) == 1:
+                                ends[fld] = (next(iter(nm)), str(n_[1]).split('::')[-1])
+                    if n_[0] == 'call' and n_[1].endswith('RangeInclusive::new') and len(n_[2]) == 2:
+                        for fld, val in (('start', n_[2][0]), ('end', n_[2][1])):
+                            nm = names_of(val)
+                            if len(nm) == 1:
+                                ends[fld] = (next(iter(nm)), 'RangeInclusive')
+                if len(nx) != 1 or not ends:
+                    continue
+                x = next(iter(nx))
+                dsw = deciding_switch(b, t['t'], t['dest']['l']) if t.get('t') is not None else None
+                if dsw is None:
+                    unknown.update(frozenset((x, e[0])) for e in ends.values())
+                    continue
+                sw, flipped = dsw
+                t_edge, f_edge = sw['otherwise'], dict(zip(sw['vals'], sw['targets'])).get(0)
+                if flipped:
+                    t_edge, f_edge = f_edge, t_edge
+                if f_edge is not None and exit_outcomes_from(b, f_edge) <= {'Err'}:
+                    # outside the range is refused: lo > x refused, x > hi (or x >= hi for a half-open range) refused
+                    if 'start' in ends:
+                        out.append((b, t['t'], t['loc'], ends['start'][0], 'Gt', x))
+                    if 'end' in ends:
+                        out.append((b, t['t'], t['loc'], x, 'Gt' if ends['end'][1] in ('RangeInclusive', 'RangeToInclusive') else 'Ge', ends['end'][0]))
+                else:
+                    unknown.update(frozenset((x, e[0])) for e in ends.values())
     return out
 
 
@@ -109,6 +183,11 @@ def constructions(facts, T, bodies):
                 if st['k'] == 'assign' and st['rv']['k'] == 'agg' and st['rv'].get('adt') == CONFIG and not st.get('exp'):
                     pay = [simplify(T.resolve_env(simplify(T.of_operand(b, o)))) for o in st['rv']['ops']]
                     out.append((b, bi, st['rv'].get('vname'), pay))
+        for bi in b.live:
+            for st in b.blocks[bi]['stmts']:
+                if st['k'] == 'assign' and st['rv']['k'] in ('use', 'cast') and st['rv']['op'].get('k') == 'const' and st['rv']['op'].get('fn') and \
+                        '::{constructor' in st['rv']['op']['fn'] and st['rv']['op']['fn'].startswith(CONFIG + '::'):
+                    out.append((b, bi, st['rv']['op']['fn'][len(CONFIG) + 2:].split('::')[0], []))
         for bi, t in b.calls():
             for a in t['args']:
                 if a.get('k') == 'const' and a.get('fn') and '::{constructor' in a['fn'] and a['fn'].startswith(CONFIG + '::'):
@@ -118,7 +197,8 @@ def constructions(facts, T, bodies):
 
 
 def per_variant(facts, T, bodies):
-    refs = refusals(facts, T, bodies)
+    unknown = set()
+    refs = refusals(facts, T, bodies, unknown)
     cons = constructions(facts, T, bodies)
     doms = {}
     table = {}
@@ -135,7 +215,7 @@ def per_variant(facts, T, bodies):
                 hit = any(n[0] == 'call' and n[1] == rb.q for p in pay for n in walk(p))
             if hit and (a, rel, c, loc) not in table[v]:
                 table[v].append((a, rel, c, loc))
-    return table, refs, cons
+    return table, refs, cons, unknown
 
 
 def implied(cli, a, rel, c):
@@ -166,20 +246,23 @@ def run(facts, cg):
             findings.append({'rule': 'R-ACCEPT', 'key': key, 'function': where, 'what': detail})
     reader = [b for b in facts.bodies.values() if not b.generated and b.id.startswith('bitar::archive::')]
     parser = [b for b in facts.bodies.values() if not b.generated and b.crate == 'bita' and b.id.startswith('bita::cli::')]
-    rt, rrefs, rcons = per_variant(facts, T, reader)
-    ct, crefs, ccons = per_variant(facts, T, parser)
+    rt, rrefs, rcons, runk = per_variant(facts, T, reader)
+    ct, crefs, ccons, cunk = per_variant(facts, T, parser)
     for v in sorted(k for k in rt if k):
         for (a, rel, c, loc) in rt[v]:
-            ok = v in ct and implied(ct[v], a, rel, c)
+            ok = v in ct and (implied(ct[v], a, rel, c) or frozenset((a, c)) in cunk)      # (a test of the pair the rule cannot read: assume it says the same)
             instances.append({'rule': 'R-ACCEPT(sibling)', 'variant': v, 'reader_refuses': '%s %s %s' % (a, '>' if rel == 'Gt' else '>=', c), 'at': loc,
                               'parser_refuses': sorted('%s %s %s' % (x, '>' if r == 'Gt' else '>=', y) for (x, r, y, _l) in ct.get(v, [])), 'follows_from_parser': ok})
             if not ok:
                 fn = next((rb.q for (rb, _bi, l_, _a, _r, _c) in rrefs if l_ == loc), '-')
                 finding(fn, 'refused-but-written:%s:%s>%s' % (v, a, c), 'the validation at %s refuses a %s archive whose %s is above its %s, the argument parser of compress accepts that '
                         'configuration: archives written by this tool are refused when they are opened (or the parser lets through what the chunker cannot run with)' % (loc, v, a, c))
-    n_r = sum(len(x) for x in rt.values())
-    n_c = sum(len(x) for x in ct.values())
-    if n_r < 3 or n_c < 4 or len([v for v in rt if v]) < 3 or len([v for v in ct if v]) < 3:
-        finding('-', 'floor-accept-sibling', 'expected the refusals of reader (3 over the variants) and argument parser (4) and three Config variants in each, found %d / %d, %s / %s '
+    # floors: the two siblings were found at all (comparisons that could not be attributed to a variant or interpreted are not
+    # reported - the rule speaks only where it can read both sides - but they count as "found")
+    n_r = len(rrefs) + len(runk)
+    n_c = len(crefs) + len(cunk)
+    if n_r < 2 or n_c < 2 or len([v for v in rt if v]) < 3 or len([v for v in ct if v]) < 3:
+        finding('-', 'floor-accept-sibling', 'expected the refusals of reader and argument parser and three Config variants in each, found %d / %d, %s / %s '
                 '(cannot decide)' % (n_r, n_c, sorted(str(v) for v in rt), sorted(str(v) for v in ct)))
+    instances.append({'rule': 'R-ACCEPT(sibling)', 'reader_relations': n_r, 'parser_relations': n_c, 'unread_pairs': sorted(sorted(x) for x in (runk | cunk))})
     return instances, findings
